@@ -10,10 +10,13 @@ toxiproxy code (by role, from `runtime.Stack`) with the model after every operat
 requires it to return to the baseline when every connection has ended and every proxy was
 deleted.
 
-Proved so far: the step that the repair for this property introduced — a stub that has
-closed itself keeps consuming what arrives, so nothing before it can stay blocked on it —
-and what the census counts.  That every quiescent state with both peers gone has census
-zero is validated by E6; its proof (an induction along the chain) is a planned extension.
+Proved here: the steps that the repairs for this property introduced — a stub that has
+closed itself keeps consuming what arrives, a failed write leaves a drain behind, so nothing
+before them can stay blocked — and what the census counts.  That every link at rest after its
+source ended has no goroutine left is `C15_at_rest` / `C15_nothing_left` in
+`Proofs/Lemmas/Rest.lean` (every toxic type; induction along the chain in both directions),
+lifted to the proxy's census by `C15_census` in `Proofs/Lemmas/Census.lean`; E6 validates the
+same on real sockets.
 -/
 namespace Toxi.Link
 open Toxi.Toxic
